@@ -1,6 +1,7 @@
 package jschema
 
 import (
+	"encoding/json"
 	"fmt"
 
 	schema "github.com/jsightapi/jsight-schema-core"
@@ -73,7 +74,18 @@ func FromRSchema(s *regex.RSchema) (*JSchema, error) {
 		return nil, errs.ErrRegexExample.F(err)
 	}
 
-	ss := New(s.File.Name(), fmt.Sprintf("%q // {regex: %q}", example, pattern))
+	// The example and the pattern become JSON strings of a JSight schema, so they
+	// have to be quoted by the JSON rules (%q quotes by the Go rules: "\x01").
+	quotedExample, err := json.Marshal(string(example))
+	if err != nil {
+		return nil, errs.ErrRegexExample.F(err)
+	}
+	quotedPattern, err := json.Marshal(pattern)
+	if err != nil {
+		return nil, errs.ErrRegexExample.F(err)
+	}
+
+	ss := New(s.File.Name(), fmt.Sprintf("%s // {regex: %s}", quotedExample, quotedPattern))
 	if err = ss.load(); err != nil {
 		return nil, errs.ErrLoadError.F(err)
 	}
